@@ -107,6 +107,12 @@ func loadFor(repo string, s *spec.Spec, tags []string, env []string, overlay map
 			}
 			res, cur = res2, ov
 			notes = append(notes, ns...)
+			if d := os.Getenv("LNDLINT_DUMP_INLINE"); d != "" {
+				os.MkdirAll(d, 0o755)
+				for name, b := range ov {
+					os.WriteFile(d+"/"+strings.ReplaceAll(strings.TrimPrefix(name, "/"), "/", "_"), b, 0o644)
+				}
+			}
 		}
 		if len(notes) > 0 {
 			fmt.Printf("note: analysed with new helper functions inlined at their call sites (line numbers of those files refer to the transformed source): %s\n", an.NotesString(notes))
@@ -507,7 +513,6 @@ func cmdSizes(args []string) int {
 	}
 	return 0
 }
-
 
 // cmdNames writes (or compares) the baseline of variable names per function
 // declaration that makes name-based rule instances tolerate renames
